@@ -515,7 +515,8 @@ func (vc *VC) allocObj(st *State, t types.Type, hint string) Term {
 	st.alloc = Add(id, IntLit(1))
 	p := MkPtr(id, Term{"PNil", SPath})
 	vc.zeroRows(st, id, t)
-	vc.q.Assert(vc.tyofAssume(p, t))
+	// gated by reachability: allocation ids coincide on mutually exclusive paths
+	vc.q.Assert(Implies(st.reach, vc.tyofAssume(p, t)))
 	return p
 }
 
